@@ -201,6 +201,12 @@ type ErrorTemplateFields struct {
 	EndColumn int `json:"end_column"`
 }
 
+// singleLine replaces line breaks in an error message coming from a library with spaces. The library may
+// echo text of the input (e.g. a YAML scalar), and an error message of actionlint must be a single line.
+func singleLine(s string) string {
+	return strings.ReplaceAll(strings.ReplaceAll(s, "\n", " "), "\r", " ")
+}
+
 func unescapeBackslash(s string) string {
 	// https://golang.org/ref/spec#Rune_literals
 	r := strings.NewReplacer(
